@@ -162,7 +162,9 @@ func (w *World) startDate() string {
 	if !w.Cfg.DateVariety {
 		return "20240115"
 	}
-	return []string{"20240114", "20240115", "20240116", "20231231"}[w.t.Choose(4)]
+	// service days whose start instants have 9, 10 and 11 decimal digits as Unix seconds (and one before 1970),
+	// so that orderings of trip UIDs as strings and as numbers disagree
+	return []string{"20240114", "20240115", "20240116", "20231231", "19991231", "20010908", "20010909", "22870101", "19691231", "19700101"}[w.t.Weighted(3, 3, 3, 2, 1, 1, 1, 1, 1, 1)]
 }
 
 func pad1(r string) string {
